@@ -41,3 +41,31 @@ Definition check12 (c : case12) : bool :=
 Definition case12v := (list (list nat) * list (list Z) * list nat * list (list Z))%type.
 Definition check12v (c : case12v) : bool :=
   let '(inds, vals, red, obs) := c in Z_list2_eqb (write_reduced_vals inds vals red) obs.
+
+(* mean / std: observed floating-point numbers as exact binary fractions (numerator, denominator); compared with the exact
+   rational mean / variance of the model's moments inside the tolerance of ReduceMoments.mean_close / std_close.
+   (main, pos, spec, dims, kind 0 = mean 1 = std, written back?, (in memory (shape, flat), on file (rows, cols, flat))) *)
+Require Import V.Usid.ReduceMoments.
+Fixpoint all2 {A B} (f : A -> B -> bool) (l1 : list A) (l2 : list B) : bool :=
+  match l1, l2 with
+  | [], [] => true
+  | x :: l, y :: m => f x y && all2 f l m
+  | _, _ => false
+  end.
+Definition case12m := (list (list Z) * list (list nat) * list (list nat) * list nat * nat * bool
+                       * (option (list nat * list (Z * Z)) * option (nat * nat * list (Z * Z))))%type.
+Definition check12m (c : case12m) : bool :=
+  let '(main, pos, spec, dims, kind, tofile, (omem, ofile)) := c in
+  let close := match kind with 0 => mean_close | _ => std_close end in
+  (match reduce_mem_moments main pos spec dims, omem with
+   | Ok red, Some (sh, obs) => nat_list_eqb (nd_shape red) sh && all2 close (nd_data red) obs
+   | Err _, None => true
+   | _, _ => false
+   end)
+  && (if tofile then
+        match reduce_file_moments main pos spec dims, ofile with
+        | Ok (r, cl, data, _, _), Some (r', cl', obs) => Nat.eqb r r' && Nat.eqb cl cl' && all2 close data obs
+        | Err _, None => true
+        | _, _ => false
+        end
+      else true).
